@@ -343,13 +343,32 @@ func TestVerifC12UDPWriteFail(t *testing.T) {
 	}
 	// a flush goroutine that survived keeps writing to the closed endpoint every 20 ms;
 	// a single late write may be a flush that was already in flight, two or more are not
+	// "keeps writing" is judged as persistence, not as a count at one instant: writes that were
+	// already in flight when the endpoint was closed (the copy loop's and the timer flush's can
+	// both be, on a loaded machine) stop by themselves; a surviving flusher adds one every 20 ms.
+	// So an endpoint counts only if it had >= 2 late writes AND gains >= 3 more during a further
+	// 400 ms of observation (three consecutive samples must each show growth).
 	var late atomic.Int64
 	worst := 0
 	for _, tc := range tuns {
-		if k := tc.WritesAfterClose(); k >= 2 {
+		k := tc.WritesAfterClose()
+		if k < 2 {
+			continue
+		}
+		run.Count("endpoints_with_writes_in_flight_at_close", 1)
+		grew := 0
+		prev := k
+		for i := 0; i < 4; i++ {
+			time.Sleep(100 * time.Millisecond)
+			if cur := tc.WritesAfterClose(); cur > prev {
+				grew++
+				prev = cur
+			}
+		}
+		if grew >= 3 && prev-k >= 3 {
 			late.Add(1)
-			if k > worst {
-				worst = k
+			if prev > worst {
+				worst = prev
 			}
 		}
 	}
